@@ -258,7 +258,20 @@ pub fn gen_history(rng: &mut Rng, p: &Profile) -> Seq {
                     }
                     1 => Op::BulkDel(ks),
                     2 => Op::BulkPut(ks.into_iter().map(|k| (k, gen_val(rng, p.val_mode))).collect()),
-                    3 => Op::PutFromIter(ks.into_iter().map(|k| (k, gen_val(rng, p.val_mode))).collect()),
+                    3 => {
+                        // put_from_iter applies pairs in iteration order: repeated keys allowed (the later
+                        // pair wins); sometimes long batches (an unstable sort would reorder equal keys
+                        // only beyond ~32 elements)
+                        let mut kvs: Vec<(B, B)> = ks.into_iter().map(|k| (k, gen_val(rng, p.val_mode))).collect();
+                        if !kvs.is_empty() && rng.chance(1, 2) {
+                            let extra = if rng.chance(1, 2) { rng.range(1, 4) } else { rng.range(35, 90) };
+                            for _ in 0..extra {
+                                let k = rng.pick(&kvs).0.clone();
+                                kvs.push((k, B::Pat(rng.below(30) as usize, rng.below(1000))));
+                            }
+                        }
+                        Op::PutFromIter(kvs)
+                    }
                     _ => Op::BulkPutString(
                         ks.into_iter()
                             .map(|k| {
